@@ -196,6 +196,22 @@ def case_history(case):
         r.eq("has_cdf / has_ppf after an in-place change", [bool(m.has_cdf), bool(m.has_ppf)], [bool(fresh.has_cdf), bool(fresh.has_ppf)], **extra)
         if m.has_cdf:
             r.close("cdf after an in-place change", m.spectral_rad_cdf(k), fresh.spectral_rad_cdf(k), rtol=1e-12, atol=0, **extra)
+    # an optional argument changed in place after the spectral functions were evaluated at the same wave numbers
+    alt = {"alpha": 0.9, "nu": {"Matern": 2.5, "Integral": 3.0}.get(cls, 4.0), "hurst": 0.3, "len_low": 0.3}
+    for name in list(opts):
+        if name not in alt:
+            continue
+        mm = C(dim=d1 if d1 in cf.valid_dims(cls, 4) else d0, **kw)
+        mm.spectral_density(k), mm.spectrum(k), mm.spectral_rad_pdf(k)
+        try:
+            setattr(mm, name, alt[name])
+            fr = C(dim=int(mm.dim), var_raw=mm.var_raw, len_scale=2.0, **dict(opts, **{name: alt[name]}))
+        except ValueError:
+            continue
+        ex2 = {"cls": cls, "after": "opt:" + name, "d0": d0, "d1": d1}
+        r.close("spectral_density after an optional argument was changed in place == freshly constructed model", mm.spectral_density(k), fr.spectral_density(k), rtol=1e-12, atol=1e-300, **ex2)
+        r.close("spectral_rad_pdf after an optional argument was changed in place == freshly constructed model", mm.spectral_rad_pdf(k), fr.spectral_rad_pdf(k), rtol=1e-12, atol=1e-300, **ex2)
+        r.close("spectrum after an optional argument was changed in place == freshly constructed model", mm.spectrum(k), fr.spectrum(k), rtol=1e-12, atol=1e-300, **ex2)
     # settings of the numerical transform belong to one model: changing them on one instance does not change
     # other (earlier or later) default models, and assigning None restores the defaults
     extra = {"cls": cls, "after": "hankel_kw", "d0": d0, "d1": d1}
@@ -245,7 +261,7 @@ def run(chk):
             for io, opts in enumerate(cf.opt_grid(cls, d, tier)):
                 # quick: the pair alternates with the dimension, so every optional-argument set sees both pairs
                 # (TPL models with a lower cut-off get both in every dimension: the cut-off is rescaled too)
-                both = tier != "quick" or (cls in cf.TPL and opts.get("len_low", 0.0) > 0 and d != 2)
+                both = tier != "quick" or (cls in cf.TPL and opts.get("len_low", 0.0) > 0 and d != 2) or cls in ("Gaussian", "Exponential")
                 for ls, rs in ([(0.5, None), (3.0, 2.0)] if both else [(0.5, None) if (d + io) % 2 else (3.0, 2.0)]):  # (never len_scale == rescale: a rescaled length of 1 hides scale mistakes)
                     cases.append({"cls": cls, "dim": d, "opts": opts, "len_scale": ls, "rescale": rs})
                 # very large and very small length scales: thresholds on a wave number instead of k * length show here
